@@ -101,12 +101,18 @@ func lebSize(v int) int {
 	}
 }
 
-// emptyFragmentEvent tells whether Encode closes a packet with Y although nothing was appended
-// to it (avail == 0 for the size-less last OBU, or avail <= LEB size for a sized OBU).
-func emptyFragmentEvent(max int, f codec.Frame) bool {
+// emptyFragmentEvent tells whether the packing decisions of Encode reach a point where nothing
+// can be appended to the current packet (avail == 0 for the size-less last OBU, or avail <= LEB
+// size for a sized OBU) AND the encoder flagged that packet with Y although no fragment was written
+// to it (the defect repaired by commit aec245d). group = the packets Encode returned for f.
+func emptyFragmentEvent(max int, f codec.Frame, group []*rtp.Packet) bool {
 	used := 1
 	inPkt := 0
+	pkt := 0
 	mfl := lebSize(max)
+	flaggedY := func() bool {
+		return pkt < len(group) && len(group[pkt].Payload) > 0 && group[pkt].Payload[0]&0x40 != 0
+	}
 	for i, o := range f {
 		rem := len(o)
 		for iter := 0; iter < 1<<22; iter++ {
@@ -126,18 +132,19 @@ func emptyFragmentEvent(max int, f codec.Frame) bool {
 			if omit {
 				if avail > 0 {
 					rem -= avail
-				} else {
+				} else if flaggedY() {
 					return true
 				}
 			} else {
 				if avail > mfl {
 					rem -= avail - mfl
-				} else {
+				} else if flaggedY() {
 					return true
 				}
 			}
 			used = 1
 			inPkt = 0
+			pkt++
 		}
 	}
 	return false
@@ -215,12 +222,12 @@ func classify(class, detail string, m map[string]any) string {
 	case "roundtrip-mismatch":
 		got, _ := m["got"].(codec.Frame)
 		want, _ := m["want"].(codec.Frame)
-		if i, ok := findFrame(want); ok && coarsening(got, want) && emptyFragmentEvent(lastEnc.max, lastEnc.frames[i]) {
+		if i, ok := findFrame(want); ok && coarsening(got, want) && emptyFragmentEvent(lastEnc.max, lastEnc.frames[i], lastEnc.groups[i]) {
 			return "av1-empty-fragment-yz"
 		}
 	case "resync-lost":
 		k, _ := m["k"].(int)
-		if lastEnc != nil && k < len(lastEnc.frames) && emptyFragmentEvent(lastEnc.max, lastEnc.frames[k]) {
+		if lastEnc != nil && k < len(lastEnc.frames) && k < len(lastEnc.groups) && emptyFragmentEvent(lastEnc.max, lastEnc.frames[k], lastEnc.groups[k]) {
 			return "av1-empty-fragment-yz"
 		}
 		if staleBefore(k) {
@@ -428,7 +435,7 @@ func roundTrip(ctx *hx.Ctx, max int, seq uint16, frames []codec.Frame, what stri
 				ctx.Failf(-1, "roundtrip-noframe", c.String(), "rtpav1 %s: completing packet gave result %d", where, res)
 			case last && !equalFrames(fr, frames[k]):
 				cl := "roundtrip-mismatch"
-				if coarsening(fr, frames[k]) && emptyFragmentEvent(max, frames[k]) {
+				if coarsening(fr, frames[k]) && emptyFragmentEvent(max, frames[k], g) {
 					cl = "av1-empty-fragment-yz"
 				}
 				ctx.Failf(-1, cl, c.String(), "rtpav1 %s: decoded OBU sizes %v differ from the temporal unit (Y set on a packet to which nothing was appended: the decoder glues two complete OBUs)", where, sizes(fr))
